@@ -199,7 +199,10 @@ def decodePayload (pk : PK) (body : Bytes) : Out Payload :=
   | .i16 n => .ok (.ints (splitInts 2 n body))
   | .i32 n => .ok (.ints (splitInts 4 n body))
   | .i32vec => .ok (.ints (splitInts 4 (body.length / 4) body))
-  | .f64 n => .ok (.reals (splitReals n body))
+  | .f64 n =>
+    -- `read_f64`: a real whose nearest double is not itself a GDSII real (it rounds to ≥ 16^63) is an error
+    let xs := splitReals n body
+    if xs.all (fun x => (GdsFloat.encodeBits x).isSome) then .ok (.reals xs) else .err
   | .str => match readStr body with
     | .ok s => .ok (.str s)
     | .err => .err
